@@ -234,7 +234,7 @@ impl TerminalState {
     }
 
     pub fn set_text_window(&mut self, x0: i32, y0: i32, x1: i32, y1: i32) {
-        self.text_window = Some(Rectangle::from_coords(x0, y0, x1, y1));
+        self.text_window = Some(Rectangle::from_pt(crate::Position::new(x0, y0), crate::Position::new(x1, y1)));
         self.set_margins_top_bottom(0, y1 - y0);
         self.set_margins_left_right(0, x1 - x0);
     }
